@@ -143,7 +143,9 @@ def run(ctx):
         k = rng.randrange(1, 4)
         names = ["confidential-%d/%s" % (j, "".join(chr(rng.randrange(0x61, 0x7B)) for _ in range(8))) + ".secret-name" for j in range(k)]
         members = [(nm, rng.choice(PLAIN) + (b"#%d" % j)) for j, nm in enumerate(names)]
-        ops = rng.choice([[], [], ["ctor"], ["enc+"], ["ctor", "enc-"], ["enc+", "encoded-"], ["encoded-", "enc+"], ["ctor", "encoded-", "encoded+"], ["enc+", "enc-", "enc+"]])
+        opseqs = [[], ["ctor"], ["enc+"], ["ctor", "enc-"], ["enc+", "encoded-"], ["encoded-", "enc+"], ["ctor", "encoded-", "encoded+"], ["enc+", "enc-", "enc+"],
+                  ["ctor", "encoded+"], ["enc+", "encoded+"], ["enc+", "encoded+", "encoded+"], ["encoded+", "enc+", "encoded+"]]
+        ops = opseqs[i] if i < len(opseqs) else rng.choice(opseqs + [[]])
         jobs.append((members, filters, pw, ops))
         jobs.append((members, filters, pw, ops))        # second build of the same input: IV / ciphertext must differ
         meta.append((lab + "+AES", pw, ops, members))
